@@ -18,6 +18,7 @@ CFG = dict(
           dict(test="TestC14SendFail", timeout_quick=200, timeout_thorough=300),
           dict(test="TestC14Long", timeout_quick=300, timeout_thorough=1500)],
     reason_text={"8": "server side: every started handler has returned, yet the server connection still holds something for them: a goroutine beyond writer + workers (none after the end of the connection), or a registry entry", "1": "the real client's observation differs from every outcome of the Gallina model (Model/Client.v, all orders of internal rules)",
+                 "9": "long history: at an idle point (no RPC in flight, the callers' contexts alive) more goroutines have a frame of the library on their stack than at the first idle point: something a call started has outlived the call",
                  "7": "release of the peer's state: a stream whose open succeeded and whose own context ended (cancel, or the caller's deadline) before any final envelope "
                       "for it was delivered has not written exactly one RST_STREAM with its id by the next quiescent point (scenario without read failure / write faults)",
                  "2": "bounded: at a quiescent point the client registry holds more entries than calls still pending plus live stream loops",
@@ -33,7 +34,7 @@ CFG = dict(
          "failure, with and without stats handler; registry size (verif accessor), pending calls and goroutine census compared with the "
          "model after EVERY action and judged by the bound/idle predicates; (b) one connection real client - real server, 10^3 (thorough "
          "10^5) RPCs of the four kinds (unary, bidi, client-stream, server-stream) x the outcomes ok / error status / cancel / deadline / server reset / failed open / SendMsg whose transport write fails on a healthy connection with one of five error values (plain, wrapped context.DeadlineExceeded, wrapped context.Canceled, io.EOF, a net-style timeout) / handler aborting while the client still sends (late zero-length message, no CloseSend) / bigmsg: one request, one LARGE response whose size on the wire sits at a round binary limit (64 KiB, 1 MiB, 4 MiB, 16 MiB: -1, exact, +1; 5 MiB; sizes are length tokens), the handler then waits for the end of the RPC, the caller takes the message and cancels / NewStream cancelled at once, the opener and the reset reaching the server's read loop back to back (the stream's context may be over before its handler goroutine has run), <= 32 in flight, gated handlers, "
-         "virtual-time deadlines; caller metadata is a dimension of every open (lock-step: all of clientrig.go mdKinds; long history: one RPC in two carries grpc-trace-id / Grpc-Status / key with a space / upper case / non-ASCII / empty key / NUL / control bytes / -bin / pseudo-header / 17 keys) + 54 lock-step cases 'open with such metadata, then the call ends by cancel / reply / read failure: registry idle'; (c) TestC14SendFail (60 cases): real client - real server, one stream, a SendMsg whose transport write fails with one of the five error values, the sender optionally held at the yield point cs.teardown.mid between the two steps of its teardown until the stream's loop goroutine has ended (D-14f, fixed in /repo 029d2b2), the caller drops the stream or calls RecvMsg: the server registry must be empty at the next quiescent point; client registry size, stream-loop census, RPCs in flight AND the server connection's stream registry sampled at every quiescent point; the history is emitted as records of <= 2000 samples (every sample is judged on its own)",
+         "virtual-time deadlines; caller metadata is a dimension of every open (lock-step: all of clientrig.go mdKinds; long history: one RPC in two carries grpc-trace-id / Grpc-Status / key with a space / upper case / non-ASCII / empty key / NUL / control bytes / -bin / pseudo-header / 17 keys) + 54 lock-step cases 'open with such metadata, then the call ends by cancel / reply / read failure: registry idle'; (c) TestC14SendFail (60 cases): real client - real server, one stream, a SendMsg whose transport write fails with one of the five error values, the sender optionally held at the yield point cs.teardown.mid between the two steps of its teardown until the stream's loop goroutine has ended (D-14f, fixed in /repo 029d2b2), the caller drops the stream or calls RecvMsg: the server registry must be empty at the next quiescent point; client registry size, stream-loop census, RPCs in flight AND the server connection's stream registry sampled at every quiescent point; EVERY goroutine with a library frame (not only read loop / stream loop) is counted at the idle points - the callers' contexts of RPCs that ended by themselves are never cancelled - and must never exceed the count of the first idle point (C14Gor, reason 9); the history is emitted as records of <= 2000 samples (every sample is judged on its own)",
     assumptions=["payloads, metadata and methods are opaque tokens in the model",
                  "transport writes succeed or fail at once (a Write that blocks for ever without honouring its context is outside the hypothesis)",
                  "quiescence = testing/synctest's durable blocking; goroutine roles are read from runtime.Stack frames",
